@@ -13,8 +13,9 @@ LEAN_MODULES = ["FimVerif.Proofs.C12"]
 P = "FimVerif.C12."
 THEOREMS = [P + t for t in (
     "delegations_roundtrip_partial", "delegations_roundtrip_counterexample", "det_roundtrip",
-    "rejects_mixed_details", "rejects_mixed_container", "rejects_mixed_pools", "decode_rejects_other_type", "rejects_duplicate_id",
-    "rejects_details_on_reference", "decode_rejects_details_on_reference",
+    "rejects_mixed_details", "rejects_mixed_container", "rejects_mixed_in_call", "rejects_mixed_pools", "decode_rejects_other_type",
+    "add_delegations_accepts_iff", "rejects_duplicate_id", "rejects_duplicate_in_call", "rejects_duplicate_across_calls",
+    "add_delegations_state", "rejects_details_on_reference", "decode_rejects_details_on_reference",
     "generate_ok_of_noClash", "generate_rejects_clash", "incorporate_entries", "pools_roundtrip",
     "pools_roundtrip_text_partial", "pools_roundtrip_text_counterexample")]
 TRUSTED_BASE = [
@@ -131,22 +132,58 @@ def build_delegs(cty, specs, dm, cl):
     return ds
 
 
+def build_arg(s, dm, cl):
+    x = mk_det(s["det"], cl)
+    d = dm.Delegation(atype=dm.DelegationType[s["ty"]], delegation_id=s["id"], aformat=dm.DelegationFormat[s["fmt"]],
+                      pool_id=s["pool"])
+    if x is not None:
+        d.set_details(x)
+    return d
+
+
+def build_pool(s, dm, cl):
+    """Pool(...), the set_defined_for / add_defined_for calls of the spec, set_pool_details"""
+    t = dm.DelegationType[s["ty"]]
+    if s["mode"] == "ctor":
+        p = dm.Pool(atype=t, pool_id=s["id"], delegation_id=s["deleg"], defined_on=s["on"], defined_for=list(s["for"]))
+    else:
+        p = dm.Pool(atype=t, pool_id=s["id"], delegation_id=s["deleg"])
+        if s["on"] is not None:
+            p.set_defined_on(s["on"])
+        p.add_defined_for(list(s["for"]))
+    for op in s.get("forops", []):
+        if op[0] == "set":
+            p.set_defined_for(list(op[1]))
+        elif op[0] == "add1":
+            p.add_defined_for(op[1])
+        else:
+            p.add_defined_for(list(op[1]))
+    if s["det"] is not None:
+        p.set_pool_details(mk_det(s["det"], cl))
+    return p
+
+
 def build_family(cty, specs, dm, cl):
     ps = dm.Pools(atype=dm.DelegationType[cty])
     for s in specs:
-        t = dm.DelegationType[s["ty"]]
-        if s["mode"] == "ctor":
-            p = dm.Pool(atype=t, pool_id=s["id"], delegation_id=s["deleg"], defined_on=s["on"], defined_for=list(s["for"]))
-        else:
-            p = dm.Pool(atype=t, pool_id=s["id"], delegation_id=s["deleg"])
-            if s["on"] is not None:
-                p.set_defined_on(s["on"])
-            p.add_defined_for(list(s["for"]))
-        if s["det"] is not None:
-            p.set_pool_details(mk_det(s["det"], cl))
-        ps.add_pool(pool=p)
+        ps.add_pool(pool=build_pool(s, dm, cl))
     ps.build_index_by_delegation_id()
     return ps
+
+
+def eff_for(p):
+    """the reference-node set a pool spec ends up with (None = construction asserts), computed from the spec"""
+    nodes = set(p["for"]) - ({p["on"]} if p["mode"] == "ctor" else set())
+    for op in p.get("forops", []):
+        if op[0] == "set":
+            if not op[1]:
+                return None
+            nodes = set(op[1])
+        elif op[0] == "add1":
+            nodes.add(op[1])
+        else:
+            nodes |= set(op[1])
+    return nodes
 
 
 def impl_eval(req):
@@ -173,6 +210,31 @@ def impl_eval(req):
             for n, ds in back:
                 q.incorporate_delegation(node_id=n, deleg=ds)
             return ["ok", pools_canon(q, cl)]
+        if op == "calls":
+            ds, err = dm.Delegations(atype=T), None
+            for call in x:
+                try:
+                    ds.add_delegations(*[build_arg(s, dm, cl) for s in call])
+                except Exception as e:
+                    err = err_kind(e)
+                    break
+            return ["ok", [delegs_canon(ds, cl), err]]
+        if op == "pseq":
+            ps, out = dm.Pools(atype=T), []
+            for st in x:
+                try:
+                    if st[0] == "add":
+                        ps.add_pool(pool=build_pool(st[1], dm, cl))
+                        out.append(None)
+                    elif st[0] == "index":
+                        ps.build_index_by_delegation_id()
+                        out.append(None)
+                    else:
+                        r = ps.generate_delegations_by_node_id()
+                        out.append(["ok", [[n, delegs_canon(ds, cl)] for n, ds in sorted(r.items())]])
+                except Exception as e:
+                    out.append(err_kind(e) if st[0] != "gen" else ["err", err_kind(e)])
+            return ["ok", out]
         if op == "inc":
             q = dm.Pools(atype=T)
             for node, c, specs in x:
@@ -355,6 +417,19 @@ def gen_pspecs(rng, cty, wellformed=False):
             fr = [n for n in fr if n != on] or [rng.choice([n for n in NODES if n != on])]
         s = {"ty": cty, "id": pid, "deleg": rng.choice(["del1", "del2", "primary"]), "on": on, "for": fr,
              "det": gen_det(rng, cty, allow_empty=not wellformed), "mode": mode}
+        if rng.random() < 0.3:
+            # the same reference set reached through several setter calls instead of one list
+            ops = []
+            for _ in range(rng.randint(1, 3)):
+                k = rng.random()
+                pick = [n for n in NODES if wellformed and n != on or not wellformed]
+                if k < 0.25:
+                    ops.append(["set", rng.sample(pick, rng.randint(0 if not wellformed else 1, 3))])
+                elif k < 0.65:
+                    ops.append(["add1", rng.choice(pick)])
+                else:
+                    ops.append(["addl", rng.sample(pick, rng.randint(0, 3))])
+            s["forops"] = ops
         if not wellformed:
             r = rng.random()
             if r < 0.04:
@@ -454,8 +529,89 @@ def gen_inc(rng, cty):
         for s in specs:
             if s["pool"] is not None and rng.random() < 0.7:
                 s["pool"] = rng.choice(["p1", "p2"])
-        nodes.append([n, c, specs])
+        if len(specs) >= 2 and rng.random() < 0.4:
+            # the same delegations handed over in several incorporate calls for the node instead of one
+            cut = rng.randrange(1, len(specs))
+            nodes.append([n, c, specs[:cut]])
+            nodes.append([n, c, specs[cut:]])
+        else:
+            nodes.append([n, c, specs])
+    if rng.random() < 0.3:
+        rng.shuffle(nodes)
     return nodes
+
+
+def call_arg(cty, ident, k, ty=None):
+    """argument number k of a call: the three formats in turn, valid details"""
+    fmt = ["SinglePool", "PoolReference", "PoolDefinition"][k % 3]
+    det = None if fmt == "PoolReference" else (["CAPACITY", to_wire({"core": k + 1})] if (ty or cty) == "CAPACITY"
+                                                else ["LABEL", to_wire({"vlan": str(k + 1)})])
+    return {"ty": ty or cty, "id": ident, "fmt": fmt, "pool": None if fmt == "SinglePool" else "p%d" % k, "det": det}
+
+
+def call_shapes():
+    """(n, dup, mismatch, held): one call of n = 0..4 arguments; dup = None or (i, j): argument j repeats the id of argument i;
+    mismatch = None or position of an argument of the other type; held = None or position of an argument whose id the
+    container already holds (from an earlier call)"""
+    out = []
+    for n in range(5):
+        pairs = [None] + [(i, j) for i in range(n) for j in range(i + 1, n)]
+        for dup in pairs:
+            for mm in [None] + list(range(n)):
+                for held in [None] + (list(range(n)) if dup is None and mm is None else []):
+                    out.append((n, dup, mm, held))
+    return out
+
+
+def shape_calls(cty, shape):
+    n, dup, mm, held = shape
+    ids = ["id%d" % k for k in range(n)]
+    if dup:
+        ids[dup[1]] = ids[dup[0]]
+    args = [call_arg(cty, ids[k], k, ty=other(cty) if mm == k else None) for k in range(n)]
+    calls = []
+    if held is not None:
+        calls.append([call_arg(cty, ids[held], 7)])
+    calls.append(args)
+    return calls
+
+
+def gen_calls(rng, cty):
+    calls = []
+    ids = ["a", "b", "c", "d", "e", "f"]
+    for _ in range(rng.randint(1, 3)):
+        n = rng.randint(0, 4)
+        pick = rng.sample(ids, n) if rng.random() < 0.6 else [rng.choice(ids) for _ in range(n)]
+        call = []
+        for k, i in enumerate(pick):
+            a = call_arg(cty, i, rng.randrange(6), ty=other(cty) if rng.random() < 0.06 else None)
+            r = rng.random()
+            if r < 0.04 and a["fmt"] == "PoolReference":
+                a["det"] = gen_det(rng, cty)
+            elif r < 0.08 and a["det"] is not None:
+                a["det"] = gen_det(rng, other(cty))
+            elif r < 0.11 and a["fmt"] != "SinglePool":
+                a["pool"] = None
+            call.append(a)
+        calls.append(call)
+    return calls
+
+
+def gen_pseq(rng, cty):
+    fam = gen_pspecs(rng, cty, wellformed=rng.random() < 0.5)
+    steps = [["add", p] for p in fam]
+    more = gen_pspecs(rng, cty, wellformed=rng.random() < 0.7)
+    k = rng.random()
+    if k < 0.3:
+        steps += [["index"], ["gen"]] + [["add", p] for p in more] + [["gen"], ["index"], ["gen"]]
+    elif k < 0.5:
+        steps = steps[:1] + [["index"]] + steps[1:] + [["index"], ["index"], ["gen"]]
+    elif k < 0.7:
+        steps += [["gen"], ["index"], ["gen"], ["gen"]]
+    else:
+        steps.insert(rng.randrange(len(steps) + 1), ["index"])
+        steps += [["gen"], ["index"], ["gen"]]
+    return steps
 
 
 def nontrivial(req):
@@ -465,7 +621,11 @@ def nontrivial(req):
     if op == "dec":
         return isinstance(x, dict) and "o" in x and len(x["o"]) >= 2
     if op in ("pools", "prt"):
-        return any(len(set(p["for"]) - {p["on"]}) >= 2 for p in x)
+        return any(len((eff_for(p) or set()) - {p["on"]}) >= 2 for p in x)
+    if op == "calls":
+        return sum(len(c) for c in x) >= 2
+    if op == "pseq":
+        return sum(1 for st in x if st[0] == "add") >= 2
     if op == "inc":
         return sum(len(n[2]) for n in x) >= 2
     return False
@@ -493,6 +653,17 @@ def gen_requests(ctx, n_sets, n_fams):
     for cty, fam in corner_pspecs():
         reqs.append(["pools", cty, fam])
         reqs.append(["prt", cty, fam])
+    for cty in TYPES:
+        for shape in call_shapes():
+            reqs.append(["calls", cty, shape_calls(cty, shape)])
+    rng = ctx.sub_rng("corr-calls")
+    for i in range(n_sets // 3):
+        cty = rng.choice(TYPES)
+        reqs.append(["calls", cty, gen_calls(rng, cty)])
+    rng = ctx.sub_rng("corr-pseq")
+    for i in range(n_fams // 2):
+        cty = rng.choice(TYPES)
+        reqs.append(["pseq", cty, gen_pseq(rng, cty)])
     rng = ctx.sub_rng("corr-sets")
     for i in range(n_sets):
         cty = rng.choice(TYPES)
@@ -687,14 +858,49 @@ def check_rejections(cty, det, odet, res):
         res.violation("C12:reject:mixed-pool-details:" + cty, "pool with details of the other kind turned into delegations", case)
 
 
+def check_call(cty, shape, res):
+    """one add_delegations(*args) call: a duplicate id (two arguments of the call, or an argument and the container) and an
+    argument of the other type are rejected wherever they stand; a call without either is accepted and stores every argument"""
+    dm, cl, K = mods()
+    n, dup, mm, held = shape
+    case = {"kind": "call", "cty": cty, "shape": [n, list(dup) if dup else None, mm, held]}
+    calls = shape_calls(cty, shape)
+    ds = dm.Delegations(atype=dm.DelegationType[cty])
+    try:
+        for c in calls[:-1]:
+            ds.add_delegations(*[build_arg(a, dm, cl) for a in c])
+        args = [build_arg(a, dm, cl) for a in calls[-1]]
+    except Exception as e:
+        res.violation("C12:call:setup-raises:" + err_kind(e), "building valid delegations raised: %s" % e, case)
+        return
+    before = dict(ds.delegations)
+    r = raises(lambda: ds.add_delegations(*args))
+    where = "same-call" if dup else "earlier-call"
+    if (dup or held is not None) and r is None:
+        res.violation("C12:reject:duplicate-id:%s:%s" % (where, cty),
+                      "add_delegations accepted two delegations with one id (%s)" % where, case,
+                      expected="rejected", observed=delegs_canon(ds, cl))
+    elif mm is not None and r is None:
+        res.violation("C12:reject:mixed-container:in-call:" + cty, "add_delegations accepted an argument of the other type", case)
+    if dup is None and held is None and mm is None:
+        if r is not None:
+            res.violation("C12:call:valid-call-rejected:" + r, "a call with distinct ids and the right type was rejected", case)
+        elif list(ds.delegations.values()) != list(before.values()) + args or list(ds.delegations.keys()) != list(before.keys()) + [a.delegation_id for a in args]:
+            res.violation("C12:call:arguments-not-stored", "an accepted call did not store exactly its arguments", case)
+    # whatever happened, an id never silently changes hands
+    for k, d in before.items():
+        if ds.delegations.get(k) is not d:
+            res.violation("C12:reject:duplicate-id:replaced:" + cty, "a delegation already in the container was replaced or lost", case)
+
+
 def clash_free(fam):
     """no node needs two entries under one delegation id (independent of the implementation)"""
     seen = set()
     for p in fam:
-        nodes = [p["on"]] + sorted(set(p["for"]) - ({p["on"]} if p["mode"] == "ctor" else set()))
-        if p["mode"] != "ctor" and p["on"] in set(p["for"]):
+        nodes = eff_for(p)
+        if p["on"] in nodes:
             return False
-        for n in nodes:
+        for n in [p["on"]] + sorted(nodes):
             if (n, p["deleg"]) in seen:
                 return False
             seen.add((n, p["deleg"]))
@@ -713,6 +919,13 @@ def check_pools(cty, fam, res, order_rng=None):
         res.violation("C12:pools:valid-family-rejected:" + err_kind(e), "a valid pool family is rejected by add_pool/build_index/validate: %s" % e, case)
         return
     want = pools_canon(ps, cl)
+    if sum(len(p["for"]) for p in fam) % 2 == 0:
+        # re-indexing (as the substrate ads do after adding pools) must not change anything
+        try:
+            ps.build_index_by_delegation_id()
+        except Exception as e:
+            res.violation("C12:pools:reindex-raises:" + err_kind(e), "a second build_index_by_delegation_id raises: %s" % e, case)
+            return
     if not clash_free(fam):
         got = []
         if raises(lambda: got.append(ps.generate_delegations_by_node_id())) is None:
@@ -868,6 +1081,9 @@ def run_case(case, res):
         check_rejections(case["cty"], case["det"], case["odet"], res)
     elif k == "pools":
         check_pools(case["cty"], case["family"], res)
+    elif k == "call":
+        sh = case["shape"]
+        check_call(case["cty"], (sh[0], tuple(sh[1]) if sh[1] else None, sh[2], sh[3]), res)
     elif k == "topology":
         check_topology(case, res)
 
@@ -911,6 +1127,11 @@ def oracle(ctx, res, n=None):
         res.evaluations += 1
         check_rejections(cty, ["CAPACITY", to_wire({"core": 2})] if cty == "CAPACITY" else ["LABEL", to_wire({"vlan": "3"})],
                          ["LABEL", to_wire({"vlan": "3"})] if cty == "CAPACITY" else ["CAPACITY", to_wire({"core": 2})], res)
+    for cty in TYPES:
+        for shape in call_shapes():
+            res.evaluations += 1
+            res.count("call:" + ("dup" if shape[1] else "held" if shape[3] is not None else "mixed" if shape[2] is not None else "valid"))
+            check_call(cty, shape, res)
     for cty, fam in corner_pspecs():
         if fam and family_valid(cty, fam):
             res.evaluations += 1
@@ -939,7 +1160,7 @@ def oracle(ctx, res, n=None):
         if not family_valid(cty, fam):
             continue
         res.evaluations += 1
-        if any(len(set(p["for"]) - {p["on"]}) >= 2 for p in fam):
+        if any(len(eff_for(p) - {p["on"]}) >= 2 for p in fam):
             res.nontrivial.add(canon(["pools", cty, fam]))
         res.count("pools:" + ("clash" if not clash_free(fam) else "clash-free"))
         check_pools(cty, fam, res, order_rng=rng if i % 2 else None)
@@ -958,7 +1179,7 @@ def family_valid(cty, fam):
     for p in fam:
         if p["ty"] != cty or p["deleg"] is None or p["on"] is None or p["det"] is None or p["det"][0] != cty:
             return False
-        nodes = set(p["for"]) - ({p["on"]} if p["mode"] == "ctor" else set())
+        nodes = eff_for(p)
         if not nodes:
             return False
         d = un_wire(p["det"][1])
